@@ -64,6 +64,8 @@ def case(task):
             if N == Ns[0]:
                 res['order'] = gc.order_dependence(
                     desc, seed, p, N, ALG + FDKEYS, vals, with_T=False)
+                res['style'] = gc.input_style_dependence(
+                    desc, seed, p, N, ALG + FDKEYS, vals, with_T=False)
             for k in ALG + FDKEYS:
                 rmax = float(np.abs(ref[k]).max())
                 sc = max(rmax, 1e-12) if k in ALG else max(
@@ -125,6 +127,14 @@ def main(tier):
             run.violation(f"C19:raised:{desc[0]}", f"{tag}: {r['raised']}",
                           {'task': r['task']})
             continue
+        for k, d in r.get('style', {}).items():
+            if not d <= 1e-9:
+                run.violation(f"C19:input-style:{k}",
+                              f"{tag}: {k} differs by {d:.2e} (relative) "
+                              "when metric, curvature and shift are given "
+                              "by components instead of arrays (fresh "
+                              "instance, reverse request order)",
+                              {'task': r['task'], 'key': k})
         for k, d in r.get('order', {}).items():
             if not d <= 1e-9:
                 run.violation(f"C19:order-dependent:{k}",
